@@ -464,6 +464,10 @@ func writeReplay(prop string, o *Obl, reason string, smt string) (string, bool) 
 }
 
 func violationLine(prop, path string, reproduced bool) string {
+	if as := os.Getenv("GOCV_REPORT_AS"); as != "" {
+		// run as a dependency of another property's check: its proof rests on this obligation
+		prop = as
+	}
 	if reproduced {
 		return fmt.Sprintf("VIOLATION property=%s replay=%s", prop, path)
 	}
@@ -722,6 +726,7 @@ func cmdCheck(args []string) int {
 			"undecided_new_safety":      undecided,
 			"bounded":                   []string{},
 			"solver_timeout_s":          to,
+			"also_runs_checks":          depsOf(prop),
 			"second_pass_obligations":   res.retried,
 			"all_solvers_must_agree":    tier == "thorough",
 			"explanation":               "weakest-precondition VCs generated from the go/ssa form of /repo's working tree against //@ contracts; one SMT query per named obligation, raced on z3 4.8.12, z3 5.1.0, cvc5 1.0 (two configurations)",
@@ -785,3 +790,25 @@ func fileSize(p string) int64 {
 }
 
 var _ = ssa.BuilderMode(0)
+
+// depsOf: the checks ./check <prop> runs after the property's own obligations (deps.json): violations found there are
+// reported as violations of prop.
+func depsOf(prop string) []string {
+	data, err := os.ReadFile(filepath.Join(verifRoot(), "deps.json"))
+	if err != nil {
+		return []string{}
+	}
+	var m map[string]any
+	if json.Unmarshal(data, &m) != nil {
+		return []string{}
+	}
+	out := []string{}
+	if l, ok := m[prop].([]any); ok {
+		for _, x := range l {
+			if s, ok := x.(string); ok {
+				out = append(out, s)
+			}
+		}
+	}
+	return out
+}
